@@ -108,6 +108,17 @@ CLAIMED = {
              "identical outcomes as decoding x alone.",
         note="The n-item split of a concatenation follows by induction (argument).",
         design="§4 C14"),
+    "C15": dict(
+        technique="SSA/memory trace of the float bit pattern through encoder and loader (reinterpretation only), instruction-set scan of every float-moving function, NaN constants and width wiring from the extracted tables",
+        text="Deliberately narrow. Decided: single and double are bit-identity paths (the integer handed to the big-endian "
+             "primitive is the reinterpretation of the parameter, the loaders return the reinterpretation of the big-endian "
+             "integer; with C10's byte maps: bit-exact round trip of every non-NaN single/double pattern); no function "
+             "between decoder, item and encoder converts or computes on the value; NaN -> canonical quiet NaN of the width; "
+             "0xF9/FA/FB <-> float2/4/8 wiring; the half encoder is loop-free, total and framed correctly.",
+        note="NOT decided (honest decline): the numeric correctness of _cbor_decode_half / cbor_encode_half (IEEE value of each "
+             "half pattern, rounding, subnormals, shift ranges). These are facts about arithmetic on runtime values; no sound "
+             "static argument in reach bounds them (goto-analyzer: UNKNOWN / internal abort).",
+        design="§4 C15"),
     "C16": dict(
         technique="DFA extraction from the constant table + exhaustive product construction against an RFC 3629 reference automaton (language equivalence); path enumeration of the counting loop and of the attachment",
         text="The step function's terms are extracted from _cbor_unicode_decode's IR and tabulated over (state, byte) using "
